@@ -579,7 +579,7 @@ class C07(SentProp):
             ref = ref_sentence(line, cfg == "noalloc")
             if pa["cls"] in ("C", "I"):
                 rep.nontrivial.add(line)
-                keys = ("talker", "report", "nf", "fn", "id", "ch", "data", "fill")
+                keys = ("talker", "report", "nf", "fn", "id", "ch", "data", "fill", "hm", "fr")
                 got = {k: pa["sent"].get(k) for k in keys}
                 if ref[0] == "ok":
                     want = sent_kv(ref[1])
